@@ -312,7 +312,7 @@ func runC02(c *c02Case) (v *vcommon.Violation, nontrivial, inconclusive bool) {
 	// classify names the mechanism of a wrong read of key i when it is one of the two recorded ones
 	classify = func(i int, got string) string {
 		k := keys[i]
-		if len(k.admissible) == 1 && k.admissible[""] && got != "" {
+		if k.admissible[""] && got != "" && (len(k.admissible) == 1 || k.delRearranging) {
 			if k.delRearranging {
 				return "resurrected:delete-while-owner-lists-rearranged"
 			}
@@ -507,7 +507,14 @@ func runC02(c *c02Case) (v *vcommon.Violation, nontrivial, inconclusive bool) {
 		// whether the partition's owner lists were in motion
 		for ki, kk := range keys {
 			if len(kk.admissible) != 1 {
-				kk.cur, kk.held, kk.delRearranging = "", nil, false
+				// a write whose outcome is unknown (it failed at the transport level) joins the admissible values;
+				// as long as "deleted" is still one of them, the circumstances of that Delete stay relevant
+				if kk.cur == "" || !kk.admissible[kk.cur] {
+					kk.cur, kk.held = "", nil
+				}
+				if !kk.admissible[""] {
+					kk.delRearranging = false
+				}
 				continue
 			}
 			var only string
